@@ -109,3 +109,84 @@ def matches_on(fn_body, ty_suffix):
 
 def last(path):
     return path.rsplit("::", 1)[-1] if path else path
+
+
+# ---- format-string templates (AST facts) joined to Macro nodes (HIR facts) by call-site span
+_fmt_cache = {}
+
+
+def fmt_index(crate):
+    key = id(crate)
+    if key not in _fmt_cache:
+        idx = {}
+        for f in crate.fmt:
+            sp = f["sp"]
+            idx.setdefault((sp[0], sp[3], sp[4]), []).append(f)
+        _fmt_cache[key] = idx
+    return _fmt_cache[key]
+
+
+def macro_templates(crate, macro_node):
+    """fmt entries (pieces, args) of a Macro node; [] when the macro has no format string"""
+    sp = macro_node["sp"]
+    return fmt_index(crate).get((sp[0], sp[3], sp[4]), [])
+
+
+def template_text(t):
+    """the template as text with {} for placeholders"""
+    out = ""
+    for p in t["pieces"]:
+        out += p["lit"] if "lit" in p else "{}"
+    return out
+
+
+def placeholder_args(crate, macro_node):
+    """[(placeholder piece, arg expr node or None)] for every placeholder of every template of the macro"""
+    out = []
+    args_by_span = {}
+    for a in macro_node.get("args", []):
+        s = a.get("sp")
+        if s:
+            args_by_span[(s[3], s[4])] = a
+    for t in macro_templates(crate, macro_node):
+        for p in t["pieces"]:
+            if "lit" in p:
+                continue
+            node = None
+            if p.get("arg") is not None and p["arg"] < len(t["args"]):
+                asp = t["args"][p["arg"]]
+                node = args_by_span.get((asp[3], asp[4]))
+            out.append((p, node))
+    return out
+
+
+def contains_local(n, name):
+    return any(kind(x) == "Path" and x["res"].get("local") == name for x in walk(n))
+
+
+def final_expr(n):
+    """the value-producing tail expression of a block-like node"""
+    n = strip(n)
+    while kind(n) == "Block":
+        if n.get("expr") is None:
+            return n
+        n = strip(n["expr"])
+    return n
+
+
+def ctor_of(n):
+    """variant / struct constructor path built by expression n (looking through Ok(..), blocks, refs); None if not a constructor"""
+    n = final_expr(n)
+    k = kind(n)
+    if k == "Call":
+        f = strip(n["f"])
+        if kind(f) == "Path" and f["res"].get("dk") == "Ctor":
+            d = f["res"]["def"]
+            if d.endswith("result::Result::Ok") or d.endswith("option::Option::Some"):
+                return ctor_of(n["args"][0]) if n["args"] else None
+            return d
+    if k == "Path" and n["res"].get("dk") in ("Ctor", "Variant"):
+        return n["res"]["def"]
+    if k == "Struct":
+        return n["res"].get("def")
+    return None
